@@ -564,6 +564,12 @@ class FakeBoto:
             s.yield_point("api")
         rec["t_end"] = s.now if s else b.now
         rec["done"] = True
+        rec["clk_end"] = self.clock() if self.clock else 0
+        try:
+            ops_out = (out.get("NewExecutionState") or {}).get("Operations") if kind == "checkpoint" else out.get("Operations")
+            rec["told"] = {o["Id"]: o["Status"] for o in (ops_out or []) if o.get("Status") in TERMINAL}
+        except Exception:  # noqa: BLE001 - deliberately malformed responses
+            rec["told"] = {}
         return out
 
     def checkpoint_durable_execution(self, DurableExecutionArn, CheckpointToken, Updates, **kw):  # noqa: N803
